@@ -24,10 +24,11 @@ inductive Padding where
   | pkcs1 | oaepSha1 | oaepSha256 | pss
 deriving Repr, DecidableEq
 
-/-- the two status codes the functions return -/
+/-- the status codes the functions return -/
 inductive Err where
   | badDecoding      -- BadDecodingError
   | badEncoding      -- BadEncodingError
+  | badIdentityTokenInvalid
 deriving Repr, DecidableEq
 
 inductive Outcome (α : Type) where
@@ -180,6 +181,84 @@ def decryptW (fx : Fixes) (r : Rsa) (pad : Padding) (secret : Option Bytes) (non
 /-- the current source (after the two `fix:` commits) -/
 def fixesAsInSource : Fixes := ⟨true, true⟩
 def decrypt := decryptW fixesAsInSource
+
+/-! ### the token layer: `make_user_name_identity_token` (user_identity.rs:23-88) and
+`decrypt_user_identity_token_password` (user_identity.rs:91-121), with the per-policy padding
+(`asymmetric_encryption_padding`, security_policy.rs:576-588) and algorithm URI
+(`asymmetric_encryption_algorithm`, security_policy.rs:265-280 + the policy modules' constants) -/
+
+inductive Policy where
+  | none | basic128Rsa15 | basic256 | basic256Sha256 | aes128Sha256RsaOaep | aes256Sha256RsaPss | unknown
+deriving Repr, DecidableEq
+
+/-- the three encryption algorithm URIs (`ENC_RSA_15`, `ENC_RSA_OAEP`, `ENC_RSA_OAEP_SHA256`) -/
+inductive AlgUri where
+  | rsa15 | rsaOaep | rsaOaepSha256
+deriving Repr, DecidableEq
+
+/-- `asymmetric_encryption_padding` (`none` = panic) -/
+def Policy.encPadding? : Policy → Option Padding
+  | .basic128Rsa15 => some .pkcs1
+  | .basic256 | .basic256Sha256 | .aes128Sha256RsaOaep => some .oaepSha1
+  | .aes256Sha256RsaPss => some .oaepSha256
+  | .none | .unknown => Option.none
+
+/-- `asymmetric_encryption_algorithm` (`none` = panic).  `fixed = false` is the pinned source, whose
+constants for the two newest policies named another algorithm than the padding in use. -/
+def Policy.encUriW (fixed : Bool) : Policy → Option AlgUri
+  | .basic128Rsa15 => some .rsa15
+  | .basic256 | .basic256Sha256 => some .rsaOaep
+  | .aes128Sha256RsaOaep => some (if fixed then .rsaOaep else .rsa15)
+  | .aes256Sha256RsaPss => some (if fixed then .rsaOaepSha256 else .rsaOaep)
+  | .none | .unknown => Option.none
+
+/-- the padding `decrypt_user_identity_token_password` selects for an algorithm URI -/
+def AlgUri.padding : AlgUri → Padding
+  | .rsa15 => .pkcs1
+  | .rsaOaep => .oaepSha1
+  | .rsaOaepSha256 => .oaepSha256
+
+/-- `UserNameIdentityToken.encryption_algorithm`: null/empty, one of the three URIs, anything else -/
+inductive TokAlg where
+  | empty | uri (u : AlgUri) | other
+deriving Repr, DecidableEq
+
+/-- The policy the token is made for (condensed Table 187 of Part 4 as coded):
+the user token policy's URI when it has one (an unrecognised URI counts as `None`), else the
+channel's. `tp = none`: the URI is null or empty. -/
+def effectivePolicy (chan : Policy) (tp : Option Policy) : Policy :=
+  match tp with
+  | Option.none => chan
+  | some .unknown => .none
+  | some p => p
+
+/-- `make_user_name_identity_token` → (password field, encryption algorithm field) -/
+def makeTokenW (fixed : Bool) (r : Rsa) (rnd : Nat) (chan : Policy) (tp : Option Policy)
+    (nonce pw : Bytes) : Outcome (Bytes × TokAlg) :=
+  match effectivePolicy chan tp with
+  | .none => .ok (pw, .empty)                                   -- plain text
+  | .unknown => .panic                                          -- "Don't know how to make the token"
+  | p =>
+    match p.encPadding?, p.encUriW fixed with
+    | some pad, some u =>
+      match encrypt r pad rnd pw nonce with
+      | .ok c => .ok (c, .uri u)
+      | .err e => .err e
+      | .panic => .panic
+    | _, _ => .panic
+
+/-- `decrypt_user_identity_token_password(token, server_nonce, server_key)`; `password = none` is a
+null ByteString (read as empty by `plaintext_password`). -/
+def decryptToken (r : Rsa) (password : Option Bytes) (alg : TokAlg) (nonce : Bytes) : Outcome Bytes :=
+  match alg with
+  | .empty =>
+    let pw := password.getD []
+    if utf8Valid pw then .ok pw else .err .badDecoding        -- `plaintext_password`
+  | .other => .err .badIdentityTokenInvalid
+  | .uri u => decrypt r u.padding password nonce
+
+/-- the current source (after the two `fix:` commits on the algorithm constants) -/
+def makeToken := makeTokenW true
 
 /-! ### a toy RSA for the driver: a block is `len_hi len_lo message zeros… ck_hi ck_lo`
 (`ck` = sum of the other bytes, so that a flipped bit is rejected as real RSA padding would) -/
